@@ -27,6 +27,10 @@ func checkC10(c *Ctx, r *Report) {
 	c10R4(c, r)
 	c17R6as(c, r, "C10.R5.rsa-limits")
 	// the name pre-checks go through equal(); the canonical form is computed on copies
+	r.rule("C10.R5.alg-coverage", 3, "every algorithm Generate makes keys for is handled by sign(), RRSIG.Verify and the hash table")
+	algorithmCoverage(c, r, "C10.R5.alg-coverage", []string{"sign", "RRSIG.Verify", "AlgorithmToHash"})
+	r.rule("C10.R5.alg-hash-table", 8, "AlgorithmToHash maps each algorithm number to the hash its RFC specifies")
+	algorithmHashTable(c, r, "C10.R5.alg-hash-table")
 	r.rule("C10.R1.name-eq", 1, "the owner / signer name pre-checks compare through equal(), which folds exactly A-Z on both sides")
 	foldRule(c, r, "C10.R1.name-eq")
 	r.rule("C10.R3.copy-faithful", 81, "the copy rawSignatureData canonicalises carries field i of the record in field i")
